@@ -8,16 +8,17 @@ open Py Xs.Bind Xs.Bind.F1
 
 /-- the statement proved by induction on `n`: an F1 instance `v` of class `c`, written as the
 element `q`, yields events that the abstract writer folds into `treeOfN … v`, and the parser's
-`ElementNode` for that element gives `v` back without warnings.  `pnsG` / `pnsP` are the parent
-namespaces under which the serializer / the parser build the class metadata. -/
+`ElementNode` for that element gives `v` back without warnings.  `pnsP` is the parent namespace
+under which the serializer and the parser build the class metadata (the namespace of the parent
+class, `meta.namespace`, on both sides). -/
 def MainStmt (e : BEnv) (Γ : Ctx) (cfg : SerCfg) (pcfg : ParserConfig) (M : NsMap) (n : Nat) : Prop :=
-  ∀ (v : Val) (c : ClassId) (pnsG pnsP : Option Str) (oq : Option QN) (q : QN) (fuel : Nat)
-    (mg mp : XmlMeta),
-    metaOf Γ c pnsG = some mg → metaOf Γ c pnsP = some mp → dropQ mg = dropQ mp →
-    resolveQ oq mg = q → nsAgree Γ mp q = true → valObjG true Γ n pnsP c v = true →
+  ∀ (v : Val) (c : ClassId) (pnsP : Option Str) (oq : Option QN) (q : QN) (fuel : Nat)
+    (mp : XmlMeta),
+    metaOf Γ c pnsP = some mp →
+    resolveQ oq mp = q → valObjG true Γ n pnsP c v = true →
     4 * v.size ≤ fuel →
     ∃ evs a text kids,
-      genObj e Γ cfg fuel v pnsG oq false none = .ok evs ∧
+      genObj e Γ cfg fuel v pnsP oq false none = .ok evs ∧
       treeOfN Γ cfg M n pnsP q v = .node q a M text kids none ∧
       SubW M (isDatatype Γ) evs (treeSax (treeOfN Γ cfg M n pnsP q v)) ∧
       plain M (treeOfN Γ cfg M n pnsP q v) = true ∧
@@ -107,29 +108,21 @@ theorem nsAgree_var {Γ : Ctx} {m : XmlMeta} {q : QN} (h : nsAgree Γ m q = true
 theorem item_obj (e : BEnv) (Γ : Ctx) (cfg : SerCfg) (pcfg : ParserConfig) (M : NsMap) (n : Nat)
     (IH : MainStmt e Γ cfg pcfg M n) {m : XmlMeta} {var : XmlVar} (hf : ElemFacts m var)
     {c : ClassId} {m' : XmlMeta} (hcl : var.clazz = some c) (hty : var.types = [.cls c])
-    (hm' : metaOf Γ c (targetUri m.qname) = some m') (hns' : nsAgree Γ m' var.qname = true)
-    (q : QN) (hnsq : nsAgree Γ m q = true) (hmem : var ∈ m.elementVars)
+    (hm' : metaOf Γ c (targetUri m.qname) = some m')
     (y : Val) (hy : valObjG true Γ n (targetUri m.qname) c y = true) (f : Nat)
     (hfuel : 4 * y.size + 3 ≤ f) :
-    ItemG e Γ cfg M (targetUri q) (treeOfN Γ cfg M n (targetUri m.qname)) var f y ∧
+    ItemG e Γ cfg M (targetUri m.qname) (treeOfN Γ cfg M n (targetUri m.qname)) var f y ∧
       plain M (itemTree M (treeOfN Γ cfg M n (targetUri m.qname)) var y) = true ∧
       ItemP e Γ pcfg M m var y (itemTree M (treeOfN Γ cfg M n (targetUri m.qname)) var y) := by
   obtain ⟨f', rfl⟩ : ∃ f', f = f' + 3 := ⟨f - 3, by omega⟩
-  have hagree := nsAgree_var hnsq hmem hcl
-  rw [hm'] at hagree
-  obtain ⟨mg', hmg', hdq⟩ : ∃ mg', metaOf Γ c (targetUri q) = some mg' ∧ dropQ mg' = dropQ m' := by
-    cases hx : metaOf Γ c (targetUri q) with
-    | none => simp [hx] at hagree
-    | some mg' => exact ⟨mg', rfl, by simpa [hx] using hagree⟩
-  have hq : resolveQ (some var.qname) mg' = var.qname := by
+  have hq : resolveQ (some var.qname) m' = var.qname := by
     have : var.qname.isEmpty = false := by
       cases hvq : var.qname with
       | nil => exact absurd hvq hf.qne
       | cons _ _ => rfl
     simp [resolveQ, this]
   obtain ⟨evs, a, text, kids, hgen, htree, hsub, hplain, hxt, hxn, hparse⟩ :=
-    IH y c (targetUri q) (targetUri m.qname) (some var.qname) var.qname f' mg' m' hmg' hm' hdq hq
-      hns' hy (by omega)
+    IH y c (targetUri m.qname) (some var.qname) var.qname f' m' hm' hq hy (by omega)
   -- `y` is an object
   have hobj : ∃ fs, y = .obj c fs := by
     cases n with
@@ -143,7 +136,7 @@ theorem item_obj (e : BEnv) (Γ : Ctx) (cfg : SerCfg) (pcfg : ParserConfig) (M :
       treeOfN Γ cfg M n (targetUri m.qname) var.qname (.obj c fs) := rfl
   rw [hit]
   refine ⟨⟨evs, ?_, hsub⟩, hplain, ?_⟩
-  · rw [genValue_obj e Γ cfg hf c fs (targetUri q) hty f']; exact hgen
+  · rw [genValue_obj e Γ cfg hf c fs (targetUri m.qname) hty f']; exact hgen
   · refine ⟨a, text, kids, _, htree, buildNode_cls e Γ hf hcl hm' a M hxt hxn, ?_⟩
     exact hparse
 
@@ -320,7 +313,7 @@ theorem elem_field_ok {Γ : Ctx} {m : XmlMeta} {ci : ClassInfo} {fields : List (
       have hdef : var.default = .listFactory := by
         cases hk with
         | prim t _ _ hd' => simpa [hl] using hd'
-        | cls c m' _ _ hd' _ _ => simpa [hl] using hd'
+        | cls c m' _ _ hd' _ => simpa [hl] using hd'
       rw [hdef] at hd
       rw [hx, defaultAgrees_list hd]
 
@@ -395,15 +388,15 @@ theorem mem_itemsOf_size {x y : Val} (h : y ∈ itemsOf x) :
 /-- per-item facts of the element case, from the induction hypothesis -/
 theorem items_all (e : BEnv) (Γ : Ctx) (cfg : SerCfg) (pcfg : ParserConfig) (M : NsMap) (n : Nat)
     (IH : MainStmt e Γ cfg pcfg M n) {ci : ClassInfo} {m : XmlMeta} (hw : m.wildcards = [])
-    {fields : List (Str × Val)} (q : QN) (hnsq : nsAgree Γ m q = true) (f : Nat)
+    {fields : List (Str × Val)} {ns : Bool} (f : Nat)
     (hfuel : 4 * sizeFields fields + 2 ≤ f)
-    {var : XmlVar} (hmem : var ∈ m.elementVars) (hv : elemVarOK true Γ m ci var = true)
+    {var : XmlVar} (hmem : var ∈ m.elementVars) (hv : elemVarOK ns Γ m ci var = true)
     (hin : var.name ∈ fields.map (·.1))
     (hx : elemValOK true ci var (valObjG true Γ n (targetUri m.qname)) (look fields var.name) = true) :
     ValShape var (look fields var.name) ∧
     (look fields var.name = .none → fdNone ci var.name = true) ∧
     ∀ y ∈ itemsOf (look fields var.name),
-      ItemG e Γ cfg M (targetUri q) (treeOfN Γ cfg M n (targetUri m.qname)) var
+      ItemG e Γ cfg M (targetUri m.qname) (treeOfN Γ cfg M n (targetUri m.qname)) var
         (if var.listElement then f else f + 1) y ∧
       plain M (itemTree M (treeOfN Γ cfg M n (targetUri m.qname)) var y) = true ∧
       ItemP e Γ pcfg M m var y (itemTree M (treeOfN Γ cfg M n (targetUri m.qname)) var y) := by
@@ -419,7 +412,7 @@ theorem items_all (e : BEnv) (Γ : Ctx) (cfg : SerCfg) (pcfg : ParserConfig) (M 
       have hs : ValShape var (look fields var.name) := by
         cases hk with
         | prim t hc ht hd => exact (elemVal_prim hc ht hd hx).1
-        | cls c m' hc ht hd hm hns => exact (elemVal_cls hc hx).1
+        | cls c m' hc ht hd hm => exact (elemVal_cls hc hx).1
       have := h1.2 (hs.1 hl)
       omega
     · have hl' : var.listElement = false := by simpa using hl
@@ -431,10 +424,10 @@ theorem items_all (e : BEnv) (Γ : Ctx) (cfg : SerCfg) (pcfg : ParserConfig) (M 
     refine ⟨hs, hnone, fun y hy => ?_⟩
     obtain ⟨p, rfl, hpt, hempty⟩ := hitems y hy
     exact item_prim e Γ cfg pcfg M _ _ hf hw hc ht p hpt hempty _ (by have := hfy _ hy; omega)
-  | cls c m' hc ht hd hm hns =>
+  | cls c m' hc ht hd hm =>
     obtain ⟨hs, hnone, hitems⟩ := elemVal_cls hc hx
     refine ⟨hs, hnone, fun y hy => ?_⟩
-    exact item_obj e Γ cfg pcfg M n IH hf hc ht hm hns q hnsq hmem y (hitems y hy) _ (hfy y hy)
+    exact item_obj e Γ cfg pcfg M n IH hf hc ht hm y (hitems y hy) _ (hfy y hy)
 
 
 theorem treeOfN_obj (Γ : Ctx) (cfg : SerCfg) (M : NsMap) (n : Nat) (pns : Option Str) (q : QN)
@@ -488,9 +481,9 @@ theorem body_gen (e : BEnv) (Γ : Ctx) (cfg : SerCfg) (M : NsMap) (ns : Option S
 
 /-- the induction step -/
 theorem main_step (e : BEnv) (Γ : Ctx) (cfg : SerCfg) (pcfg : ParserConfig) (M : NsMap)
-    (hΓ : ctxF1 Γ = true) (n : Nat) (IH : MainStmt e Γ cfg pcfg M n) :
+    {ns : Bool} (hΓ : ctxF1G ns Γ = true) (n : Nat) (IH : MainStmt e Γ cfg pcfg M n) :
     MainStmt e Γ cfg pcfg M (n + 1) := by
-  intro v c pnsG pnsP oq q fuel mg mp hmg hmp hdq hq hns hval hfuel
+  intro v c pnsP oq q fuel mp hmp hq hval hfuel
   cases v with
   | obj cls fields =>
     -- unpack the value conditions
@@ -510,17 +503,10 @@ theorem main_step (e : BEnv) (Γ : Ctx) (cfg : SerCfg) (pcfg : ParserConfig) (M 
     have hAnd := attrPairs_nodup cfg fields mp.attributeVars MF.attrNodup
     have hBindA := bindAttrs_F1 e pcfg cfg mp fields M hAF hAnames
     -- the generator up to the element content
-    have hnilG : mg.nillable = false := by
-      have : mg.nillable = mp.nillable := by
-        show (dropQ mg).nillable = (dropQ mp).nillable
-        rw [hdq]
-      rw [this]; exact MF.nillable
-    have hGA : nextAttribute cfg mg fields false none =
-        .ok (attrEvs (attrPairs cfg mp.attributeVars fields)) := by
-      rw [← nextAttribute_dropQ, hdq, nextAttribute_dropQ]; exact nextAttribute_F1 cfg mp fields hAF
-    have hNV : nextValue mg fields = nextValue mp fields := by
-      rw [← nextValue_dropQ, hdq, nextValue_dropQ]
-    rw [genObj_unfold e Γ cfg f cls fields pnsG oq mg hmg hnilG, hq, hGA, hNV,
+    have hnilG : mp.nillable = false := MF.nillable
+    have hGA : nextAttribute cfg mp fields false none =
+        .ok (attrEvs (attrPairs cfg mp.attributeVars fields)) := nextAttribute_F1 cfg mp fields hAF
+    rw [genObj_unfold e Γ cfg f cls fields pnsP oq mp hmp hnilG, hq, hGA,
       treeOfN_obj Γ cfg M n pnsP q cls fields hmp]
     have hfactoryA : ∀ (P : Params), (∀ var ∈ mp.attributeVars,
           P.get var.name = (attrOf cfg fields var).map Val.prim) →
@@ -605,7 +591,7 @@ theorem main_step (e : BEnv) (Γ : Ctx) (cfg : SerCfg) (pcfg : ParserConfig) (M 
             Bool.false_eq_true, false_or] at hTX
           obtain ⟨hpt, hemp⟩ := hTX
           obtain ⟨f', rfl⟩ : ∃ f', f = f' + 1 := ⟨f - 1, by omega⟩
-          have hgen := genField_text e Γ cfg f' (targetUri q) hmixed hisText hwrap hpt
+          have hgen := genField_text e Γ cfg f' (targetUri mp.qname) hmixed hisText hwrap hpt
           have hparse : parseNode e Γ pcfg
               (.element mp (attrPairs cfg mp.attributeVars fields) M false none none)
               (.node q (attrPairs cfg mp.attributeVars fields) M (primText p) [] none) =
@@ -654,7 +640,7 @@ theorem main_step (e : BEnv) (Γ : Ctx) (cfg : SerCfg) (pcfg : ParserConfig) (M 
       · cases hTX
     | none =>
       dsimp only
-      have hEall : ∀ var ∈ mp.elementVars, elemVarOK true Γ mp ci var = true := by
+      have hEall : ∀ var ∈ mp.elementVars, elemVarOK ns Γ mp ci var = true := by
         simpa [htext] using MF.body
       have hbodyE : ∀ var ∈ mp.elementVars, elemValOK true ci var (valObjG true Γ n (targetUri mp.qname))
           (look fields var.name) = true := by simpa [htext] using hbody
@@ -664,12 +650,12 @@ theorem main_step (e : BEnv) (Γ : Ctx) (cfg : SerCfg) (pcfg : ParserConfig) (M 
         obtain ⟨f', hf', _⟩ := fieldAgrees_iff.1 hfa
         rw [hnames]; exact mem_names_of_find hf'
       obtain ⟨f', rfl⟩ : ∃ f', f = f' + 1 := ⟨f - 1, by omega⟩
-      have hI := fun var hv => items_all e Γ cfg pcfg M n IH MF.wild q hns f' (by omega) hv
+      have hI := fun var hv => items_all e Γ cfg pcfg M n IH MF.wild f' (by omega) hv
         (hEall var hv) (hin var hv) (hbodyE var hv)
       -- generator
       have hNVe := nextValue_F1 mp fields (fun var hv =>
         ⟨(hEF var hv).sequence, (hEF var hv).nillable, hin var hv⟩)
-      obtain ⟨body, hbodyEq, hBodyW⟩ := body_gen e Γ cfg M (targetUri q)
+      obtain ⟨body, hbodyEq, hBodyW⟩ := body_gen e Γ cfg M (targetUri mp.qname)
         (treeOfN Γ cfg M n (targetUri mp.qname)) (m := mp)
         (mp.elementVars.flatMap (fun var => emitOf var (look fields var.name))) f'
         (fun vv hvv => by
@@ -744,9 +730,9 @@ theorem main_step (e : BEnv) (Γ : Ctx) (cfg : SerCfg) (pcfg : ParserConfig) (M 
 
 
 theorem main_all (e : BEnv) (Γ : Ctx) (cfg : SerCfg) (pcfg : ParserConfig) (M : NsMap)
-    (hΓ : ctxF1 Γ = true) : ∀ n, MainStmt e Γ cfg pcfg M n
+    {ns : Bool} (hΓ : ctxF1G ns Γ = true) : ∀ n, MainStmt e Γ cfg pcfg M n
   | 0 => by
-    intro v c pnsG pnsP oq q fuel mg mp _ _ _ _ _ hval _
+    intro v c pnsP oq q fuel mp _ _ hval _
     simp [valObjG] at hval
   | n + 1 => main_step e Γ cfg pcfg M hΓ n (main_all e Γ cfg pcfg M hΓ n)
 
@@ -756,8 +742,8 @@ theorem nsAgree_self (Γ : Ctx) (m : XmlMeta) : nsAgree Γ m m.qname = true := b
   cases w.clazz <;> simp
 
 /-- fragment F1: generate, write, read back, parse -/
-theorem roundtrip_F1 (e : BEnv) (Γ : Ctx) (cfg : SerCfg) (pcfg : ParserConfig) (c : ClassId) (v : Val)
-    (hΓ : ctxF1 Γ = true) (hv : valF1 e Γ c v = true) :
+theorem roundtrip_F1G (e : BEnv) (Γ : Ctx) (cfg : SerCfg) (pcfg : ParserConfig) (c : ClassId) (v : Val)
+    {ns : Bool} (hΓ : ctxF1G ns Γ = true) (hv : valF1 e Γ c v = true) :
     ∃ evs t, generate e Γ cfg v = .ok evs ∧ eventsTree (isDatatype Γ) evs = .ok t ∧
       parseRoot e Γ pcfg c t = .ok (v, 0) := by
   unfold valF1 valObjN at hv
@@ -778,8 +764,8 @@ theorem roundtrip_F1 (e : BEnv) (Γ : Ctx) (cfg : SerCfg) (pcfg : ParserConfig) 
       | some m => exact ⟨m, by simp [metaOf, hf, hmf]⟩
   have hgenEq : generate e Γ cfg (.obj c fields) =
       genObj e Γ cfg (4 * (Val.obj c fields).size + 8) (.obj c fields) none none false none := rfl
-  have key := fun M => main_all e Γ cfg pcfg M hΓ (n + 1) (.obj c fields) c none none none m.qname
-    (4 * (Val.obj c fields).size + 8) m m hm hm rfl rfl (nsAgree_self Γ m) hv (by omega)
+  have key := fun M => main_all e Γ cfg pcfg M hΓ (n + 1) (.obj c fields) c none none m.qname
+    (4 * (Val.obj c fields).size + 8) m hm rfl hv (by omega)
   obtain ⟨evs, _, _, _, hgen0, _⟩ := key []
   obtain ⟨evs', a, text, kids, hgen, htree, hsub, hplain, hxt, hxn, hparse⟩ :=
     key (prefixMap (collectUris evs))
@@ -796,5 +782,12 @@ theorem roundtrip_F1 (e : BEnv) (Γ : Ctx) (cfg : SerCfg) (pcfg : ParserConfig) 
       simp [Ctx.fetch, hm]
     simp [parseRoot, xsiTypeOf_none e a _ hxt, xsiNilOf_none a hxn, hfetch, hparse, bind, Except.bind,
       pure, Except.pure]
+
+/-- fragment F1 under its original name (`ctxF1 = ctxF1G true`) -/
+theorem roundtrip_F1 (e : BEnv) (Γ : Ctx) (cfg : SerCfg) (pcfg : ParserConfig) (c : ClassId) (v : Val)
+    (hΓ : ctxF1 Γ = true) (hv : valF1 e Γ c v = true) :
+    ∃ evs t, generate e Γ cfg v = .ok evs ∧ eventsTree (isDatatype Γ) evs = .ok t ∧
+      parseRoot e Γ pcfg c t = .ok (v, 0) :=
+  roundtrip_F1G e Γ cfg pcfg c v (ns := true) hΓ hv
 
 end Proofs.C01
